@@ -129,7 +129,7 @@ FIELD_POOL = ["name", "sid", "slen", "sequence", "from_segment", "from_orient", 
               "from_name", "LN:i:1", "*", "+"]
 VALUE_POOL = ["1", "-1", "+1", "1.5", "x", "", " ", "*", "A", "B", "zz", "A+", "B-", "zz+", "+", "-", "2M", "1M1I", "1,2", "0", "4$", "$",
               "ACGT", "ac", "[1]", "{\"a\":1}", "{", "c,1", "c,300", "f,1", "f,x", "00FF", "0g", "a b", "a\tb", "a\nb", "é", "\x7f",
-              "A+,B-", "A+ B-", "A B", "A+,zz+", "e1+", "1_0", " 5", "inf", "nan", "9" * 400, "x" * 5000, "1.0", "2.0", "3.0"]
+              "A+,B-", "A+ B-", "A B", "A+,zz+", "e1+", "1_0", " 5", "inf", "nan", "9" * 400, "x" * 5000, "1.0", "2.0", "3.0", "9" * 5000, "9" * 5000 + "M", "1," + "9" * 5000, "9" * 5000 + "$", "-" + "9" * 4400]
 
 API_DOCS = [
     ("gfa1", ["H\tVN:Z:1.0\txx:i:1", "S\tA\tACGT\tLN:i:4", "S\tB\t*\tLN:i:5\tzz:J:[1]", "L\tA\t+\tB\t-\t2M\tID:Z:l1",
@@ -138,7 +138,7 @@ API_DOCS = [
               "F\tA\tr+\t0\t2\t0\t2$\t*", "G\tg\tA+\tB+\t10\t3", "O\to\tA+ e1+ B-", "U\tu\tA g o", "X\tcust\txx:i:1", "# c"]),
 ]
 API_CALLS = ["line", "segment", "rm", "try_get_line", "try_get_segment", "set", "get", "delete", "field_to_s", "validate_line",
-             "str", "validate", "add_line"]
+             "str", "validate", "add_line", "validate_field"]
 
 # identifiers which look like numbers to str.isdigit() / int() without being small ASCII decimals, and neighbours
 ODD_NAMES = ["1" * 5000, "9" * 4301, "9" * 4300, "0" * 6000, "1" * 100, "²", "¹²", "1²", "٣", "١٢٣",
@@ -254,6 +254,12 @@ def _plan(tier):
     for nseg in (1, 2, 3, 4, 5):
         for v in (0, 1, 2, 3):
             plan.append({"kind": "plist", "nseg": nseg, "vlevel": v})
+    for shape in range(len(LONGLIST)):
+        for v in (0, 1, 2, 3):
+            plan.append({"kind": "longlist", "shape": shape, "vlevel": v})
+    for d in range(len(G.BASE_DOCS)):
+        for v in (0, 1):
+            plan.append({"kind": "progress", "doc": d, "vlevel": v})
     for ver, dep in APISEQ_DOCS:
         for v in (0, 1, 2, 3):
             plan.append({"kind": "apiseq", "version": ver, "dep": dep, "vlevel": v})
@@ -878,6 +884,65 @@ def probe_deps(P, ver, first, vlevel):
                 P.call("Gfa.validate() after %s (%s)" % (mode, ctx), lines, g.validate)
 
 
+# long lists: (version, line template with one %s for the list, element, separator)
+LONGLIST = [("gfa1", "P\tp\t%s\t*", "a+", ","), ("gfa1", "P\tp\ta+,b+\t%s", "1M", ","), ("gfa1", "P\tp\t%s\t*", "seg1+", ","),
+            ("gfa2", "O\to\t%s", "a+", " "), ("gfa2", "U\tu\t%s", "a", " "), ("gfa2", "U\tu\t%s", "segment_with_a_long_name", " "),
+            ("gfa2", "E\t*\ta+\tb+\t0\t1\t0\t1\t%s", "1", ","), ("gfa1", "S\ta\t*\txx:B:%s", "c,1", ","),
+            ("gfa1", "S\ta\t*\txx:H:%s", "0A", ""), ("gfa1", "L\ta\t+\tb\t+\t%s", "1M", "")]
+LONGLIST_TAILS = ["", "\x7f", " ", ",", "é", "+", "-", "\u00a0", ",,", " \t"]
+
+
+def probe_longlist(P, shape, vlevel):
+    """lists of 24-64 elements that are valid, or valid up to the last character: a validation that tries every way
+    of splitting the list takes time exponential in its length (the alarm of Probe.call reports a hang)"""
+    ver, tpl, elem, sep = LONGLIST[shape]
+    for n in (24, 40, 64):
+        base = sep.join([elem] * n)
+        for tail in LONGLIST_TAILS:
+            text = tpl % (base + tail)
+            probe_line(P, text, vlevel, ver)
+            if any(f.startswith("hang") for f in P.F):
+                return          # one report is enough: every further hanging call costs the whole alarm time
+    gfapy = lib.import_gfapy()
+    # the same through the API: the list assigned as a string
+    fld = {0: "segment_names", 1: "overlaps", 2: "segment_names", 3: "items", 4: "items", 5: "items", 6: "alignment", 9: "overlap"}.get(shape)
+    if fld is not None:
+        for tail in ("\x7f", " ", ",,"):
+            st, l = P.call("Line(template)", tpl, gfapy.Line, tpl % sep.join([elem] * 2), vlevel=vlevel, version=ver)
+            if st == "ok":
+                val = sep.join([elem] * 48) + tail
+                P.call("%s-line.set(%r, long list) (vlevel=%d)" % (l.record_type, fld, vlevel), val, l.set, fld, val)
+                P.call("%s-line.validate() after set(long list) (vlevel=%d)" % (l.record_type, vlevel), val, l.validate)
+                P.call("str(line) after set(long list) (vlevel=%d)" % vlevel, val, str, l)
+
+
+def probe_progress(P, d, vlevel):
+    """Gfa.read_file with progress logging switched on: intact file, file with undecodable bytes, missing newline"""
+    gfapy = lib.import_gfapy()
+    text = "\n".join(G.BASE_DOCS[d][2])
+    for label, data in (("intact", text.encode() + b"\n"), ("bad-bytes", text.encode()[:20] + b"\xff\xfe" + text.encode()[20:]),
+                        ("bad-tail", text.encode() + b"\n\xc3"), ("empty", b""), ("latin-1", text.replace("A", "\u00e9", 1).encode("latin-1"))):
+        fd, path = tempfile.mkstemp(prefix="c07p_", suffix=".gfa", dir="/tmp")
+        try:
+            with os.fdopen(fd, "wb") as f:
+                f.write(data)
+
+            def run():
+                g = gfapy.Gfa(vlevel=vlevel)
+                with open(os.devnull, "w") as sink:
+                    g.enable_progress_logging(part=0.3, channel=sink)
+                    g.read_file(path)
+                return g
+            st, g = P.call("Gfa.read_file with progress logging (%s, vlevel=%d)" % (label, vlevel), data, run)
+        finally:
+            try:
+                os.unlink(path)
+            except OSError:
+                pass
+        if st == "ok" and g is not None:
+            P.call("str(Gfa) after read_file with progress logging (%s)" % label, data, str, g)
+
+
 def probe_plist(P, nseg, vlevel):
     """GFA1 paths of nseg segments with every number of overlaps from none to nseg+2, over defined / undefined
     segments and links"""
@@ -1138,7 +1203,7 @@ def api_step(P, g, step, ctx):
     call = step[0]
     if call in ("line", "segment", "rm", "try_get_line", "try_get_segment"):
         P.call("Gfa.%s(%r) (%s)" % (call, step[1] if len(step[1]) < 40 else step[1][:20] + "...", ctx), step, getattr(g, call), step[1])
-    elif call in ("set", "get", "delete", "field_to_s", "validate_line"):
+    elif call in ("set", "get", "delete", "field_to_s", "validate_line", "validate_field"):
         st, lines = P.call("Gfa.lines", step, lambda: list(g.lines))
         if st != "ok" or not lines:
             return
@@ -1170,7 +1235,7 @@ def probe_apix(P, d, vlevel, call):
             api_step(P, g, [call, x], ctx)
             api_step(P, g, ["str"], ctx + " after %s(%r)" % (call, x[:20]))
             api_step(P, g, ["validate"], ctx + " after %s(%r)" % (call, x[:20]))
-    elif call in ("get", "delete", "field_to_s"):
+    elif call in ("get", "delete", "field_to_s", "validate_field"):
         g = build_api_doc(P, d, vlevel)
         if g is None:
             return
@@ -1254,6 +1319,10 @@ def oracle(case):
         probe_deps(P, case["version"], case["first"], v)
     elif k == "plist":
         probe_plist(P, case["nseg"], v)
+    elif k == "longlist":
+        probe_longlist(P, case["shape"], v)
+    elif k == "progress":
+        probe_progress(P, case["doc"], v)
     elif k == "apiseq":
         probe_apiseq(P, case["version"], case["dep"], v, case.get("segs", "first"))
     elif k == "graph":
